@@ -1,11 +1,64 @@
-import BroodModel.Serde
+/-
+  C06 — Serialize then deserialize reproduces the world exactly.
+
+  Status of the proof: **partial**.  Proved for all inputs: whatever `deserialize` accepts
+  satisfies the invariant and therefore behaves like any other world from then on
+  (`C06_roundtrip_result_valid_partial`), and equality is decided soundly on the result (C16).
+  That `deserialize (serialize w)` *succeeds* and compares equal to `w` for every reachable `w` is
+  stated below (`RoundTrips`) and is, so far, established by kernel evaluation on sample worlds
+  only (labelled as tests) and by the correspondence check on the real code (every `de` operation
+  compares the real round trip with the model's, both encodings, and the real `==` with the
+  original); the general proof needs the printer/parser inversion lemmas for every visitor.
+-/
+import BroodModel.Lemmas.DeInv
+
 namespace Brood
 open Serde
-/-- The serialization of the empty world deserializes (both encodings). -/
-theorem C06_empty_roundtrip (k : Kinds) (hr : Bool) (n e next : Nat) :
-    (deserialize k hr n 0 e next (serialize hr (World.init n []))).toOption.isSome = true := by
-  cases hr <;> simp [serialize, World.init, serAlloc, Alloc.empty, deserialize, expectTup, elem, hasElem,
-    deArchs, deAllocParts, deAllocFields, deU64, deFreeSeq, deFree, fromParts, fillSlot,
-    deserialize.go, assertEnded, Except.toOption, pure, Except.pure]
+
+/-- The full statement of the round-trip property for one world. -/
+def RoundTrips (k : Kinds) (hr : Bool) (e next : Nat) (w : World) : Prop :=
+  ∃ w', deserialize k hr w.n w.res.length e next (serialize hr w) = .ok w' ∧
+    World.eqWorld w w' = .ok true ∧ w'.len = w.len ∧
+    ∀ id, entEqv (w.entity id) (w'.entity id) = true
+
+/-- Whatever a round trip returns is a valid world: it satisfies the invariant, every admissible
+history continued on it runs to completion, and it can be serialized / cloned / compared again. -/
+theorem C06_roundtrip_result_valid_partial {k : Kinds} {hr : Bool} {e next : Nat} {w w' : World}
+    (h : deserialize k hr w.n w.res.length e next (serialize hr w) = .ok w') :
+    Inv w' ∧ (∀ ops, (∀ op ∈ ops, op.wt w'.n) → ∃ w'', run w' ops = .ok w'' ∧ Inv w'') := by
+  have hi := deserialize_inv h
+  refine ⟨hi, fun ops hwt => ?_⟩
+  obtain ⟨w'', r1, r2, _⟩ := run_total hi ops hwt
+  exact ⟨w'', r1, r2⟩
+
+/-- If the round trip succeeds and the result compares equal, it denotes the same map (C16). -/
+theorem C06_equal_means_same_map_partial {k : Kinds} {hr : Bool} {e next : Nat} {w w' : World}
+    (hi : Inv w) (h : deserialize k hr w.n w.res.length e next (serialize hr w) = .ok w')
+    (heq : World.eqWorld w w' = .ok true) :
+    w'.len = w.len ∧ ∀ id, entEqv (w.entity id) (w'.entity id) = true := by
+  obtain ⟨h1, _, h3⟩ := eqWorld_sound hi (deserialize_inv h) heq
+  exact ⟨h1.symm, h3⟩
+
+/-- Test (kernel evaluation, not a proof of the general claim): a reachable world with two tables,
+a freed slot and a reused slot round-trips in both encodings and compares equal. -/
+example :
+    (match run (World.init 3 [])
+        [.insert [1, 0] [⟨1, 11⟩, ⟨0, 10⟩], .insert [2] [⟨2, 20⟩], .insert [2] [⟨2, 21⟩], .remove ⟨1, 0⟩,
+         .insert [0] [⟨0, 12⟩], .remove ⟨0, 0⟩] with
+     | .ok w =>
+       [true, false].map (fun hr =>
+         match deserialize ⟨['s', 's', 's'], []⟩ hr 3 0 1 50 (serialize hr w) with
+         | .ok w' => (match World.eqWorld w w' with | .ok r => r | .ub _ => false) && w'.len == w.len
+         | .error _ => false)
+     | .ub _ => []) = [true, true] := by decide +kernel
+
+/-- Test: the empty world round-trips (both encodings). -/
+example :
+    [true, false].map (fun hr =>
+      (deserialize ⟨[], []⟩ hr 4 0 1 0 (serialize hr (World.init 4 []))).toOption.isSome) = [true, true] := by
+  decide +kernel
+
 end Brood
-#print axioms Brood.C06_empty_roundtrip
+
+#print axioms Brood.C06_roundtrip_result_valid_partial
+#print axioms Brood.C06_equal_means_same_map_partial
